@@ -281,37 +281,29 @@ def _closest_points_on_segments_2d(a0x: float, a0y: float, a1x: float, a1y: floa
     den = A * C - B * B
     s = 0.0
     t = 0.0
-    if den > 0.0:
+    # Closest point on the (infinite) first line to the second, clamped to the
+    # segment; for parallel or degenerate segments (den == 0) any s is optimal
+    # on the line, so keep s = 0 and let the projections below decide.
+    if den > 0.0 and A > 0.0:
         s = (B * E - C * D) / den
-        t = (A * E - B * D) / den
-
-    # clamp and recompute as needed
-    if s < 0.0:
-        s = 0.0
-        if C > 0.0:
-            t = E / C
-    elif s > 1.0:
-        s = 1.0
-        if C > 0.0:
-            t = (E + B) / C
-
+        if s < 0.0:
+            s = 0.0
+        elif s > 1.0:
+            s = 1.0
+    # Project that point onto the second segment (clamped), then re-project onto
+    # the first segment; s is unchanged unless t had to be clamped or den == 0.
+    if C > 0.0:
+        t = (B * s + E) / C
     if t < 0.0:
         t = 0.0
-        if A > 0.0:
-            s = -D / A
-            if s < 0.0:
-                s = 0.0
-            elif s > 1.0:
-                s = 1.0
     elif t > 1.0:
         t = 1.0
-        if A > 0.0:
-            s = (B - D) / A
-            if s < 0.0:
-                s = 0.0
-            elif s > 1.0:
-                s = 1.0
-
+    if A > 0.0:
+        s = (B * t - D) / A
+        if s < 0.0:
+            s = 0.0
+        elif s > 1.0:
+            s = 1.0
     px = a0x + s * ux
     py = a0y + s * uy
     qx = b0x + t * vx
